@@ -13,9 +13,9 @@ MEMBER_KINDS = ['method', 'amethod', 'static', 'classm', 'prop', 'decomethod', '
                 'method_nested_def']
 # definitions inside module-level control flow that does execute on import, guards that merely mention
 # __name__, and decorators that come from other modules - explored by their own spec (smaller layout set)
-BLOCK_TOP_KINDS = ['twin_classes', 'main_else_def', 'ifnot_main_def', 'ifne_main_def', 'ifor_main_def', 'else_def', 'except_def',
+BLOCK_TOP_KINDS = ['main_swapped_def', 'main_elif_def', 'nfkc_decodef', 'contline_decodef', 'twin_classes', 'main_else_def', 'ifnot_main_def', 'ifne_main_def', 'ifor_main_def', 'else_def', 'except_def',
                    'finally_def', 'for_def', 'with_def', 'while_def', 'cmdef', 'lrudef', 'if_class', 'subclass']
-BLOCK_MEMBER_KINDS = ['cmmethod', 'cachedprop', 'if_method', 'prop_deco']
+BLOCK_MEMBER_KINDS = ['cmmethod', 'cachedprop', 'if_method', 'prop_deco', 'private_method']
 LAYOUTS = ['freeform1', 'none', 'freeform2', 'google1', 'google2', 'doctestblock', 'google_after_args', 'mixed',
            'google_space', 'google_kinds', 'free_after_word', 'google_blank2', 'google_bad_later', 'google_bad_first']
 STYLES = ['auto', 'google', 'freeform']
@@ -219,6 +219,16 @@ class Builder(object):
         elif kind == 'lambda':
             self.emit('lam%s = lambda: 0' % n)
             self.emit('')
+        elif kind == 'main_swapped_def':
+            # the guard written with its operands swapped: still code that only runs as a script
+            self.emit("if '__main__' == __name__:")
+            self.func(4, 'msw' + n, layout, collect=False)
+        elif kind == 'main_elif_def':
+            # an elif branch of the guard does run on import
+            self.emit("if __name__ == '__main__':")
+            self.emit('    pass')
+            self.emit('elif True:')
+            self.func(4, 'mei' + n, layout)
         elif kind == 'main_else_def':
             self.emit("if __name__ == '__main__':")
             self.emit('    pass')
@@ -259,6 +269,14 @@ class Builder(object):
             self.func(4, 'whl' + n, layout)
             self.emit('    break')
             self.emit('')
+        elif kind == 'nfkc_decodef':
+            # a decorated function whose name is written with a character the compiler normalises (MICRO SIGN -> GREEK MU)
+            self.func(0, '\u00b5_f' + n, layout, decorators=('_deco',), qual='\u03bc_f' + n)
+        elif kind == 'contline_decodef':
+            # a decorated function whose name stands on a continuation line of the def statement
+            self.emit('@_deco')
+            self.emit('def \\')
+            self.func(0, 'clf' + n, layout, prefix='   ')
         elif kind == 'cmdef':
             self.func(0, 'cmf' + n, layout, decorators=('contextlib.contextmanager',))
         elif kind == 'lrudef':
@@ -344,6 +362,9 @@ class Builder(object):
                 self.func(4, 'pd' + n, layout, args='self', decorators=('property',), qual=c + '.pd' + n)
                 self.func(4, 'pd' + n, 'freeform1', args='self, v', decorators=('_deco', 'pd%s.setter' % n), collect=False)
                 self.func(4, 'pd' + n, 'freeform1', args='self', decorators=('_deco', 'pd%s.deleter' % n), collect=False)
+            elif kind == 'private_method':
+                # a name-mangled method: the class namespace holds it as _<Class>__pm<n>
+                self.func(4, '__pm' + n, layout, args='self', qual=c + '.__pm' + n)
             elif kind == 'if_method':
                 self.emit('    if True:')
                 self.func(8, 'ifm' + n, layout, args='self', qual=c + '.ifm' + n)
